@@ -30,6 +30,8 @@ Record launch_case := {
   lc_entries : list dirent;                 (* plugin directory, in creation order *)
   lc_dropins : dropin_dir;                  (* drop-in directory *)
   lc_outcomes : list (string * outcome);    (* behaviour of each launched file (by file name); default OGood *)
+  lc_sync_calls : bool;                     (* the runtime's SyncFn calls the synchronisation closure … *)
+  lc_sync_fails : bool;                     (* … and returns an error (Start must then fail as a whole) *)
   lc_start_ok : bool;                       (* Adaptation.Start returned nil *)
   lc_obs : list plugin_obs;                 (* sorted by file name *)
   lc_events : list event_obs
@@ -54,8 +56,10 @@ Definition case_history (c : launch_case) (ds : list discovered) : list action :
   (map (fun _ => AEvent) (filter (fun e => negb (eo_after_death e)) (lc_events c)) ++
    lost_actions c ds ++
    map (fun _ => AEvent) (filter eo_after_death (lc_events c)) ++ [AStop])%list.
+Definition world_started (c : launch_case) (ds : list discovered) : list rplugin :=
+  start_world (lc_sync_calls c) (lc_sync_fails c) (outcome_of c) ds.
 Definition world_after_stop (c : launch_case) (ds : list discovered) : list rplugin :=
-  run (case_history c ds) (world_after_start (outcome_of c) ds).
+  run (case_history c ds) (world_started c ds).
 
 Definition strs_eqb := list_eqb String.eqb.
 Definition is_nil {A} (l : list A) : bool := match l with [] => true | _ => false end.
@@ -68,7 +72,7 @@ Fixpoint all2 {A B} (f : A -> B -> bool) (a : list A) (b : list B) : bool :=
 
 (* ------------------------------------------------------------------ correspondence *)
 
-Definition obs_matches (c : launch_case) (w : list rplugin) (p : discovered) (po : plugin_obs) : bool :=
+Definition obs_matches (c : launch_case) (w0 w : list rplugin) (p : discovered) (po : plugin_obs) : bool :=
   let o := outcome_of c p in
   let env := child_env (d_idx p) (d_base p) in
   (String.eqb (po_file po) (d_name p) &&
@@ -77,7 +81,7 @@ Definition obs_matches (c : launch_case) (w : list rplugin) (p : discovered) (po
    String.eqb (po_stub po) (match stub_name env ("/plugins/" ++ d_name p) with Some n => n | None => "" end) &&
    list_eqb N.eqb (po_fds po) child_fds && po_fd3_socket po &&
    opt_eqb String.eqb (po_config po) (if configured o then Some (d_cfg p) else None) &&
-   N.eqb (po_after_start po) (state_code (state_after_start o)) &&
+   N.eqb (po_after_start po) (state_code (Some (proc_of w0 (d_name p)))) &&
    N.eqb (po_after_stop po) (state_code (Some (proc_of w (d_name p)))))%bool.
 
 (* the model's list up to the order of plugins with equal indices (sort.Slice is not stable) *)
@@ -95,9 +99,10 @@ Definition corr_launch (c : launch_case) : bool :=
   | None => (negb (lc_start_ok c) && is_nil (lc_obs c) && is_nil (lc_events c))%bool
   | Some ds =>
       let act := start_plugins (outcome_of c) ds in
-      (lc_start_ok c &&
-       all2 (obs_matches c (world_after_stop c ds)) (filter (fun p => launches (outcome_of c p)) ds) (lc_obs c) &&
-       forallb (event_matches c act) (lc_events c))%bool
+      (Bool.eqb (lc_start_ok c) (negb (lc_sync_fails c)) &&
+       (lc_sync_fails c || lc_sync_calls c) &&      (* a SyncFn that succeeds without calling the closure is not driven *)
+       all2 (obs_matches c (world_started c ds) (world_after_stop c ds)) (filter (fun p => launches (outcome_of c p)) ds) (lc_obs c) &&
+       (if lc_sync_fails c then is_nil (lc_events c) else forallb (event_matches c act) (lc_events c)))%bool
   end.
 
 (* ------------------------------------------------------------------ the property on the observation *)
@@ -114,7 +119,8 @@ Definition obs_holds (c : launch_case) (po : plugin_obs) : bool :=
        (if configured o
         then opt_eqb String.eqb (po_config po) (Some (spec_config (lc_dropins c) idx base))
         else opt_eqb String.eqb (po_config po) None) &&                    (* its drop-in configuration *)
-       (if active o then N.eqb (po_after_start po) 2                        (* the others are unaffected *)
+       (if lc_sync_fails c then N.eqb (po_after_start po) 0                 (* Start failed: all dropped, all killed *)
+        else if active o then N.eqb (po_after_start po) 2                   (* the others are unaffected *)
         else negb (N.eqb (po_after_start po) 2)) &&                         (* killed when dropped *)
        N.eqb (po_after_stop po) 0)%bool                                     (* killed (and reaped) when NRI stops *)
   end.
@@ -137,7 +143,8 @@ Definition holds_launch (c : launch_case) : bool :=
   then (negb (lc_start_ok c) && is_nil (lc_obs c))%bool                     (* I6: Start fails as a whole *)
   else
     let names := map de_name cands in
-    (lc_start_ok c &&
+    (Bool.eqb (lc_start_ok c) (negb (lc_sync_fails c)) &&                  (* a failing SyncFn fails Start as a whole *)
+     (negb (lc_sync_fails c) || is_nil (lc_events c)) &&
      strs_eqb (map po_file (lc_obs c)) (filter (fun n => launches (outcome_by_name c n)) names) &&
      forallb (obs_holds c) (lc_obs c) &&
      forallb (event_holds c names) (lc_events c))%bool.
